@@ -537,6 +537,13 @@ func c07(x *mon.Ctx) {
 		x.Broken("C07 twin rejected: " + out.Err)
 		return
 	}
+	{ // a collateral getter that panics instead of returning (at the first request, or after TCB Info and QE Identity were served):
+		// a QE report that does not match the identity is still not reported as verified
+		w := base.Clone()
+		w.Qe.MrSigner = strings.Repeat("5A", 32)
+		w.Resign()
+		crashingCollaborators(x, "qe-mismatch-and-a-crashing-getter", w.Case(world.LColl, "identity-names-another-mrsigner", "crashing-getter"))
+	}
 	enableShadowForTwins(x)
 	jobs := c07Jobs(x, base)
 	for _, j := range jobs {
